@@ -26,7 +26,7 @@ def prepare(prop):
     ok, out = B.build_coq()
     st["coq_ok"] = ok
     st["coq_failed"] = B.coq_failed_files(out) if not ok else []
-    st["coq_log"] = out[-3000:] if not ok else ""
+    st["coq_log"] = out[-30000:] if not ok else ""
     st["audit"] = B.audit_sources()
     st["assumptions"] = B.assumptions(prop)
     ok, out = B.build_ocaml()
@@ -58,8 +58,10 @@ def proof_status(prop, st):
     for f in st["coq_failed"]:
         if f.startswith("Props/") and f != "Props/%s.v" % prop:
             continue
-        if f.endswith("Actual.v"):
-            broken.append("generated obligation %s no longer checks" % f)
+        if (f.endswith("Actual.v") or f.endswith("Ok.v")) and a["rc"] != 0:
+            m = re.search(r'File "\./%s", line (\d+)[^\n]*\n((?:[^\n]*\n){0,6})' % re.escape(f), st["coq_log"])
+            where = (" (line %s: %s)" % (m.group(1), " ".join(m.group(2).split())[:300])) if m else ""
+            broken.insert(0, "obligation about the current source no longer checks: %s%s" % (f, where))
     discharged = n if not broken else 0
     return n, discharged, broken
 
